@@ -14,6 +14,9 @@
  *                        order, npost sets on the survivor(s); flushed bytes of the copy == flushed bytes of a twin writer
  * Output "MISMATCH ..." (exit 3) or "OK <n>".
  */
+#include <sys/resource.h>
+#include <fcntl.h>
+#include <unistd.h>
 #define main c10_main
 #include "c10_hist.c"
 #undef main
@@ -322,6 +325,8 @@ int main(int argc, char **argv)
 
 	if (argc < 3)
 		return 2;
+	if (getenv("VERIF_DIR_READER_FLAGS"))
+		g_dir_reader_flags = (unsigned int)strtoul(getenv("VERIF_DIR_READER_FLAGS"), NULL, 0);
 	if (rset_open(&O, argv[1]) != 0) {
 		puts("UNREADABLE");
 		return 0;
@@ -363,11 +368,27 @@ int main(int argc, char **argv)
 			long k = strtol(rest, NULL, 10), seen = 0;
 			if (have_copy || !o_alive || o_vs_twin)
 				continue;
-			if (verif_alloc_arm)
-				verif_alloc_arm(k);
-			copy_set(&C, &O);
-			if (verif_alloc_disarm)
-				seen = verif_alloc_disarm();
+			if (k < 0) {
+				/* no file descriptor is left while copying: dup() of the file object fails */
+				struct rlimit old, lim;
+				int fd = open("/dev/null", O_RDONLY);
+				getrlimit(RLIMIT_NOFILE, &old);
+				lim = old;
+				if (fd >= 0) {
+					close(fd);
+					lim.rlim_cur = fd;
+					setrlimit(RLIMIT_NOFILE, &lim);
+				}
+				copy_set(&C, &O);
+				setrlimit(RLIMIT_NOFILE, &old);
+				seen = C.file == NULL ? -1 : 1;
+			} else {
+				if (verif_alloc_arm)
+					verif_alloc_arm(k);
+				copy_set(&C, &O);
+				if (verif_alloc_disarm)
+					seen = verif_alloc_disarm();
+			}
 			rset_close(&C);
 			printf("FAILCOPY k=%ld allocations=%ld delivered=%d\n", k, seen < 0 ? -seen : seen, seen < 0);
 			if (rset_open(&T, argv[1]) != 0)
